@@ -12,7 +12,7 @@ import time
 
 VERIF = os.path.dirname(os.path.dirname(os.path.abspath(__file__)))
 REPO = os.environ.get('VERIF_REPO', '/repo')
-LEAN = os.path.join(VERIF, 'lean')
+LEAN = os.environ.get('VERIF_LEAN_DIR', os.path.join(VERIF, 'lean'))
 BUILD = os.path.join(VERIF, 'build')
 EVIDENCE = os.path.join(VERIF, 'evidence')
 REPLAYS = os.path.join(EVIDENCE, 'replays')
